@@ -30,6 +30,10 @@ def main():
     src = "/tmp/seed-out/%s" % prop if rnd == "1" else "/tmp/seed%s/%s" % (rnd, prop)
     wt = "/tmp/wt-%s" % prop if rnd == "1" else "/tmp/w%s-%s" % (rnd, prop)
     sid = "%s-%s" % (prop, i) if rnd == "1" else "%s-r%s-%s" % (prop, rnd, i)
+    # explicit locations (module-oriented rounds): SEED_SRC = directory with change<i>.diff / demo<i>.*, SEED_WT = worktree,
+    # SEED_ID = name under seeded/
+    if os.environ.get("SEED_SRC"):
+        src, wt, sid = os.environ["SEED_SRC"], os.environ["SEED_WT"], os.environ["SEED_ID"]
     patch = os.path.join(src, "change%s.diff" % i)
     demo_rs = os.path.join(src, "demo%s.rs" % i)
     demo_sh = os.path.join(src, "demo%s.sh" % i)
